@@ -46,3 +46,15 @@ mod c11;
 
 #[cfg(kani)]
 mod c12;
+
+#[cfg(kani)]
+mod c14;
+
+#[cfg(kani)]
+mod c07;
+
+#[cfg(kani)]
+mod c15;
+
+#[cfg(kani)]
+mod c01;
